@@ -303,6 +303,9 @@ func zzFileStoreHarness(maxLen, maxFail int) {
 		zz.Assert(complete, "a commit that reports success has persisted data and trailer")
 	} else {
 		zz.Reach("commit error")
+		zz.Assert(!vis, "a commit that reports an error leaves nothing visible")
+		_, oerr := st.Open(ctx, task, 0, 0)
+		zz.Assert(oerr != nil, "after a failed commit the entry cannot be opened")
 	}
 	if !complete {
 		zz.Assert(cerr != nil, "a commit that could not persist the data reports an error")
